@@ -29,7 +29,7 @@ def RevInv (w : W) : Prop := ∀ q r, (q, r) ∈ w.cl.revs → r ≤ genOf w.sv 
 
 theorem revInv_of_frame {w w' : W} {A : Quoted → Prop} (hI : RevInv w) (hf : Frame w w' A) : RevInv w' := by
   intro q r hm
-  rcases hf.2 q r hm with h | ⟨_, h⟩
+  rcases hf.2.1 q r hm with h | ⟨_, h⟩
   · exact Nat.le_trans (hI q r h) (hf.1 _)
   · exact h
 
@@ -40,11 +40,13 @@ theorem frame_step (w : W) (op : Op) : ∃ A, Frame w (step w op).1 A := by
     have := frame_cstep { w with plan := plan, log := [] } op
     exact ⟨this.1, this.2⟩
   | extPut i d =>
-    refine ⟨fun _ => False, fun j => ?_, fun q r hm => Or.inl hm⟩
-    simp only [step, extPut]; exact serve_gen_mono _ _ _
+    refine ⟨fun _ => False, fun j => ?_, fun q r hm => Or.inl hm, fun hd => ?_⟩
+    · simp only [step, extPut]; exact serve_gen_mono _ _ _
+    · simp only [step, extPut]; exact docsInv_serve _ hd
   | extDelete i =>
-    refine ⟨fun _ => False, fun j => ?_, fun q r hm => Or.inl hm⟩
-    simp only [step, extDelete]; exact serve_gen_mono _ _ _
+    refine ⟨fun _ => False, fun j => ?_, fun q r hm => Or.inl hm, fun hd => ?_⟩
+    · simp only [step, extDelete]; exact serve_gen_mono _ _ _
+    · simp only [step, extDelete]; exact docsInv_serve _ hd
 
 theorem c16_inv_init : RevInv init := by intro q r h; simp [init] at h
 
@@ -87,7 +89,7 @@ theorem c16_ext_delete_behind (w : W) (i : Ident) (hI : RevInv w) (hl : (live w.
 theorem behind_of_frame {w w' : W} {A : Quoted → Prop} {i : Ident} (hb : Behind w i) (hf : Frame w w' A)
     (hA : ¬ A (quote i)) : Behind w' i := by
   intro r hm
-  rcases hf.2 _ _ hm with h | ⟨h, _⟩
+  rcases hf.2.1 _ _ hm with h | ⟨h, _⟩
   · exact Nat.lt_of_lt_of_le (hb r h) (hf.1 _)
   · exact absurd h hA
 
@@ -106,10 +108,10 @@ theorem c16_behind_step (w : W) (op : Op) (i : Ident) (hb : Behind w i) (hA : ¬
     exact behind_of_frame (w := w) hb ⟨this.1, this.2⟩ hA
   | extPut j d =>
     obtain ⟨A, hf⟩ := frame_step w (.extPut j d)
-    refine behind_of_frame (A := fun _ => False) hb ⟨hf.1, fun q r hm => Or.inl hm⟩ (fun h => h)
+    refine behind_of_frame (A := fun _ => False) hb ⟨hf.1, fun q r hm => Or.inl hm, hf.2.2⟩ (fun h => h)
   | extDelete j =>
     obtain ⟨A, hf⟩ := frame_step w (.extDelete j)
-    refine behind_of_frame (A := fun _ => False) hb ⟨hf.1, fun q r hm => Or.inl hm⟩ (fun h => h)
+    refine behind_of_frame (A := fun _ => False) hb ⟨hf.1, fun q r hm => Or.inl hm, hf.2.2⟩ (fun h => h)
 
 /-- a history none of whose steps re-learns `i` -/
 def Avoids (i : Ident) : W → List Op → Prop
@@ -449,6 +451,315 @@ theorem c16_errors_iterLoop_stop (i : Ident) (rest : List Ident) (w : W) (acc : 
   · rename_i heq; rw [heq] at this; simp [isRaise] at this
   · exact ⟨_, rfl⟩
   · exact ⟨_, rfl⟩
+
+
+
+/-! ## 6. No phantom object: bookkeeping agrees with the server -/
+
+theorem serveDoc_not_ok_unchanged (sv : Server) (i : Ident) (rq : Req)
+    (h : ∀ b, classify rq.method (.resp (serveDoc sv i rq).2) ≠ .ok b) : (serveDoc sv i rq).1 = sv := by
+  unfold serveDoc at h ⊢
+  cases hm : rq.method <;> simp only [hm] at h ⊢
+  · split <;> rfl
+  · split <;> rfl
+  · cases hd : rq.data with
+    | none => rfl
+    | some d =>
+      simp only [hd] at h ⊢
+      cases hl : live sv i with
+      | none =>
+        simp only [hl] at h ⊢
+        by_cases hr : rq.rev = none
+        · simp only [hr, if_true] at h; exact absurd rfl (h _)
+        · simp [hr]
+      | some p =>
+        obtain ⟨g, d'⟩ := p
+        simp only [hl] at h ⊢
+        by_cases hr : rq.rev = some g
+        · simp only [hr, if_true] at h; exact absurd rfl (h _)
+        · simp [hr]
+  · cases hl : live sv i with
+    | none => rfl
+    | some p =>
+      obtain ⟨g, d'⟩ := p
+      simp only [hl] at h ⊢
+      by_cases hr : rq.rev = some g
+      · simp only [hr, if_true] at h; exact absurd rfl (h _)
+      · simp [hr]
+
+theorem serve_not_ok_unchanged (sv : Server) (rq : Req)
+    (h : ∀ b, classify rq.method (.resp (serve sv rq).2) ≠ .ok b) : (serve sv rq).1 = sv := by
+  unfold serve at h ⊢
+  cases ht : rq.target with
+  | db => simp only []; split <;> rfl
+  | allDocs => simp only []; split <;> rfl
+  | doc q =>
+    simp only [ht] at h ⊢
+    by_cases hq : 47 ∈ q
+    · simp [hq]
+    · simp only [hq, if_false] at h ⊢
+      exact serveDoc_not_ok_unchanged _ _ _ h
+
+theorem serve_head_unchanged (sv : Server) (rq : Req) (hm : rq.method = .HEAD) : (serve sv rq).1 = sv := by
+  apply serve_not_ok_unchanged
+  intro b hb
+  simp only [classify, hm] at hb
+  repeat' split at hb
+  all_goals simp_all
+
+/-- a call's plan injects only faults whose request does not reach the server (the answer is replaced, nothing is lost) -/
+def Unprocessed (plan : List (Option Fault)) : Prop := ∀ f, some f ∈ plan → f.processed = false
+
+theorem request_plan (w : W) (rq : Req) : (request w rq).1.plan = w.plan.tail := by
+  unfold request; split <;> simp_all
+
+theorem request_not_ok_unchanged (w : W) (rq : Req) (hu : Unprocessed w.plan)
+    (h : ∀ b, (request w rq).2 ≠ .ok b) : (request w rq).1.sv = w.sv := by
+  cases hp : w.plan with
+  | nil =>
+    simp only [request, hp] at h ⊢
+    exact serve_not_ok_unchanged _ _ h
+  | cons a rest =>
+    cases a with
+    | none =>
+      simp only [request, hp] at h ⊢
+      exact serve_not_ok_unchanged _ _ h
+    | some f =>
+      have : f.processed = false := hu f (by rw [hp]; exact List.mem_cons_self)
+      simp [request, hp, this]
+
+theorem request_head_unchanged (w : W) (q : Quoted) (rv dt) : (request w ⟨.HEAD, .doc q, rv, dt⟩).1.sv = w.sv := by
+  rcases (request_cases w ⟨.HEAD, .doc q, rv, dt⟩).2 with ⟨h, _⟩ | ⟨_, h | h, _⟩
+  · rw [h]; exact serve_head_unchanged _ _ rfl
+  · exact h
+  · rw [h]; exact serve_head_unchanged _ _ rfl
+
+theorem unprocessed_tail {plan : List (Option Fault)} (h : Unprocessed plan) : Unprocessed plan.tail :=
+  fun f hf => h f (List.mem_of_mem_tail hf)
+
+/-- `discard` (as patched) is atomic w.r.t. the server: if it raises — and no answer was lost after execution — the server is
+    exactly as before.  On the pinned tree this is false: see `c16_pinned_discard_phantom`. -/
+theorem c16_discardWith_atomic (w : W) (h : Nat) (x : Obj) (q : Quoted) (r : Rev) (hu : Unprocessed w.plan)
+    (hr : isRaise (discardWith true w h x q r).2) : (discardWith true w h x q r).1.sv = w.sv := by
+  unfold discardWith at hr ⊢
+  split at hr
+  · simp [isRaise] at hr
+  all_goals
+    rename_i heq
+    obtain ⟨hw, ho⟩ := eq_of_request heq
+    simp only []
+    rw [hw]
+    apply request_not_ok_unchanged _ _ hu
+    intro b hb
+    rw [← ho] at hb
+    first
+      | (cases hb; done)
+      | (rename_i hn _ _; exact hn b hb)
+
+theorem c16_discard_atomic (w : W) (h : Nat) (safe : Bool) (hu : Unprocessed w.plan)
+    (hr : isRaise (discard w h safe).2) : (discard w h safe).1.sv = w.sv := by
+  unfold discard discardG at hr ⊢
+  split at hr
+  · rfl
+  · split at hr
+    · exact c16_discardWith_atomic _ _ _ _ _ hu hr
+    · rfl
+    · split at hr
+      · rename_i x _ _ _ _ _ _ heq
+        obtain ⟨hw, ho⟩ := eq_of_request heq
+        have hsv : (request w ⟨.HEAD, .doc (quote x.id), none, none⟩).1.sv = w.sv := request_head_unchanged _ _ _ _
+        have hu' : Unprocessed (request w ⟨.HEAD, .doc (quote x.id), none, none⟩).1.plan := by
+          rw [request_plan]; exact unprocessed_tail hu
+        rw [hw] at hr ⊢
+        rw [c16_discardWith_atomic _ _ _ _ _ hu' hr, hsv]
+      all_goals
+        rename_i heq
+        first
+          | (rw [(eq_of_request heq).1]; exact request_head_unchanged _ _ _ _)
+          | (rename_i h1 _ _; rw [(eq_of_request h1).1]; exact request_head_unchanged _ _ _ _)
+          | (rename_i h1 _ _ _; rw [(eq_of_request h1).1]; exact request_head_unchanged _ _ _ _)
+
+
+theorem discardWith_ok (w : W) (h : Nat) (x : Obj) (q : Quoted) (r : Rev) (hr : (discardWith true w h x q r).2 = .unit) :
+    AList.get q (discardWith true w h x q r).1.cl.revs = none ∧
+    AList.get x.id (discardWith true w h x q r).1.cl.cache = none ∧
+    getObj (discardWith true w h x q r).1 h = some { x with source := none } ∧
+    ∃ b, (request w ⟨.DELETE, .doc q, some r, none⟩).2 = .ok b ∧
+      (discardWith true w h x q r).1.sv = (request w ⟨.DELETE, .doc q, some r, none⟩).1.sv := by
+  unfold discardWith at hr ⊢
+  split at hr
+  · rename_i w1 b heq
+    obtain ⟨hw, ho⟩ := eq_of_request heq
+    simp only [Bool.not_true, Bool.false_and, Bool.false_eq_true, if_false]
+    refine ⟨by simp [setObj, get_eraseKey_same], by simp [setObj, get_eraseKey_same], by simp [getObj, setObj],
+      b, ho.symm, by simp [setObj, hw]⟩
+  all_goals simp at hr
+
+/-- after a successful `discard` nothing of the object is left behind in this process: no remembered revision, no cache entry,
+    no source on the object -/
+theorem c16_discard_bookkeeping (w : W) (h : Nat) (safe : Bool) (x : Obj) (hx : getObj w h = some x)
+    (hr : (discard w h safe).2 = .unit) :
+    AList.get (quote x.id) (discard w h safe).1.cl.revs = none ∧
+    AList.get x.id (discard w h safe).1.cl.cache = none ∧
+    getObj (discard w h safe).1 h = some { x with source := none } := by
+  unfold discard discardG at hr ⊢
+  simp only [hx] at hr ⊢
+  split at hr
+  · obtain ⟨a, b, c, _⟩ := discardWith_ok _ _ _ _ _ hr; exact ⟨a, b, c⟩
+  · simp at hr
+  · split at hr
+    · obtain ⟨a, b, c, _⟩ := discardWith_ok _ _ _ _ _ hr; exact ⟨a, b, c⟩
+    all_goals simp at hr
+
+/-- a DELETE that the server itself answered with success removed the document -/
+theorem serve_delete_ok (sv : Server) (i : Ident) (r : Rev) (b : Body)
+    (h : classify .DELETE (.resp (serve sv ⟨.DELETE, .doc (quote i), some r, none⟩).2) = .ok b) :
+    live (serve sv ⟨.DELETE, .doc (quote i), some r, none⟩).1 i = none := by
+  rw [serve_doc_quote] at h ⊢
+  unfold serveDoc at h ⊢
+  simp only [] at h ⊢
+  cases hl : live sv i with
+  | none => simp [hl]
+  | some p =>
+    obtain ⟨g, d⟩ := p
+    simp only [hl] at h ⊢
+    by_cases hr : some r = some g
+    · simp only [hr, if_true]; exact live_write_none _ _
+    · simp only [hr, if_false] at h
+      simp [classify, err] at h
+
+/-- … and, the injected answers being genuine error answers, a `discard` that returns normally has deleted the document -/
+theorem c16_discard_deletes (w : W) (h : Nat) (x : Obj) (hx : getObj w h = some x)
+    (hr : AList.get (quote x.id) w.cl.revs ≠ none)
+    (hg : ∀ f rest, w.plan = some f :: rest → f.kind.genuine)
+    (hu : (discard w h true).2 = .unit) : live (discard w h true).1.sv x.id = none := by
+  unfold discard discardG at hu ⊢
+  simp only [hx] at hu ⊢
+  cases hrv : AList.get (quote x.id) w.cl.revs with
+  | none => exact absurd hrv hr
+  | some r =>
+    simp only [hrv] at hu ⊢
+    obtain ⟨_, _, _, b, hb, hsv⟩ := discardWith_ok _ _ _ _ _ hu
+    rw [hsv]
+    cases hp : w.plan with
+    | nil =>
+      simp only [request, hp] at hb ⊢
+      exact serve_delete_ok _ _ _ _ hb
+    | cons a rest =>
+      cases a with
+      | none =>
+        simp only [request, hp] at hb ⊢
+        exact serve_delete_ok _ _ _ _ hb
+      | some f =>
+        simp only [request, hp] at hb
+        exact absurd hb (hg f rest hp _ _)
+
+/-- after a successful `add` the object is stored, bound, cached and its revision known -/
+theorem c16_add_bookkeeping (w : W) (h : Nat) (x : Obj) (hx : getObj w h = some x) (hr : (add w h).2 = .unit) :
+    AList.get x.id (add w h).1.cl.cache = some h ∧
+    getObj (add w h).1 h = some { x with source := some (quote x.id) } ∧
+    AList.get (quote x.id) (add w h).1.cl.revs = some (genOf (add w h).1.sv x.id) := by
+  unfold add at hr ⊢
+  simp only [hx] at hr ⊢
+  split at hr
+  · rename_i w1 i' rev heq
+    obtain ⟨hw, ho⟩ := eq_of_request heq
+    obtain ⟨_, hg⟩ := request_written ho.symm
+    rw [unquote_quote] at hg
+    refine ⟨by simp [setObj, setRev], by simp [getObj, setObj], ?_⟩
+    simp [setObj, setRev, hw, hg]
+  all_goals simp at hr
+
+theorem serve_put_ok_written (sv : Server) (q : Quoted) (rv : Option Rev) (dt : Option Data) (b : Body)
+    (h : classify .PUT (.resp (serve sv ⟨.PUT, .doc q, rv, dt⟩).2) = .ok b) : ∃ i g, b = .written i g := by
+  simp only [serve] at h
+  by_cases hq : 47 ∈ q
+  · simp [hq, classify, err] at h
+  · simp only [hq, if_false] at h
+    unfold serveDoc at h
+    simp only [] at h
+    cases dt with
+    | none => simp [classify, err] at h
+    | some d =>
+      simp only [] at h
+      cases hl : live sv (unquote q) with
+      | none =>
+        simp only [hl] at h
+        by_cases hr : rv = none
+        · simp [hr, classify] at h; exact ⟨_, _, h.symm⟩
+        · simp [hr, classify, err] at h
+      | some p =>
+        obtain ⟨g, d'⟩ := p
+        simp only [hl] at h
+        by_cases hr : rv = some g
+        · simp [hr, classify] at h; exact ⟨_, _, h.symm⟩
+        · simp [hr, classify, err] at h
+
+/-- a rejected `add` (no answer lost after execution, injected answers genuine errors) changes neither the server nor the
+    client's bookkeeping -/
+theorem c16_add_atomic (w : W) (h : Nat) (hu : Unprocessed w.plan) (hr : isRaise (add w h).2) :
+    (add w h).1.sv = w.sv ∧ (add w h).1.cl = w.cl := by
+  unfold add at hr ⊢
+  cases hx : getObj w h with
+  | none => exact ⟨rfl, rfl⟩
+  | some x =>
+    simp only [hx] at hr ⊢
+    have key : (request w ⟨.PUT, .doc (quote x.id), none, some x.data⟩).1.sv = w.sv ∨
+        ∃ i g, (request w ⟨.PUT, .doc (quote x.id), none, some x.data⟩).2 = .ok (.written i g) := by
+      cases hp : w.plan with
+      | nil =>
+        by_cases hok : ∃ b, (request w ⟨.PUT, .doc (quote x.id), none, some x.data⟩).2 = .ok b
+        · obtain ⟨b, hb⟩ := hok
+          right
+          have hb' := hb
+          simp only [request, hp] at hb'
+          obtain ⟨i, g, e⟩ := serve_put_ok_written _ _ _ _ _ hb'
+          exact ⟨i, g, by rw [hb, e]⟩
+        · left; exact request_not_ok_unchanged _ _ hu (fun b hb => hok ⟨b, hb⟩)
+      | cons a rest =>
+        cases a with
+        | none =>
+          by_cases hok : ∃ b, (request w ⟨.PUT, .doc (quote x.id), none, some x.data⟩).2 = .ok b
+          · obtain ⟨b, hb⟩ := hok
+            right
+            have hb' := hb
+            simp only [request, hp] at hb'
+            obtain ⟨i, g, e⟩ := serve_put_ok_written _ _ _ _ _ hb'
+            exact ⟨i, g, by rw [hb, e]⟩
+          · left; exact request_not_ok_unchanged _ _ hu (fun b hb => hok ⟨b, hb⟩)
+        | some f =>
+          left
+          have : f.processed = false := hu f (by rw [hp]; exact List.mem_cons_self)
+          simp [request, hp, this]
+    split at hr
+    · simp [isRaise] at hr
+    all_goals
+      rename_i heq
+      obtain ⟨hw, ho⟩ := eq_of_request heq
+      refine ⟨?_, by simp only []; rw [hw]; exact request_cl _ _⟩
+      simp only []
+      rw [hw]
+      rcases key with k | ⟨i, g, k⟩
+      · exact k
+      · rw [k] at ho
+        clear hw heq k hr hu
+        first
+          | (cases ho; done)
+          | (rename_i hn; injection ho with hb; exact (hn _ _ hb).elim)
+          | (rename_i hn _ _; exact (hn _ _ ho).elim)
+
+/-! ### the pinned tree: `del d[key]` after the server-side delete (DESIGN A.16) -/
+
+/-- a local object for an identifier that an external writer has stored -/
+def phantomWorld : W := (step (step init (.client (.mk [97] 0) [])).1 (.extPut [97] 7)).1
+
+/-- On the pinned tree, `discard` of that object deletes the document on the server and then raises KeyError, leaving the
+    object's source and the call's atomicity broken; the patched `discard` returns normally. -/
+theorem c16_pinned_discard_phantom :
+    (discardPinned phantomWorld 0 false).2 = .raise .keyError ∧
+    live phantomWorld.sv [97] = some (1, 7) ∧ live (discardPinned phantomWorld 0 false).1.sv [97] = none ∧
+    (discard phantomWorld 0 false).2 = .unit := by
+  decide
 
 
 end Basyx.Couch
